@@ -85,7 +85,7 @@ CLAIMS = {
  "C14": dict(
   technique="Lean 4 proof: Bits = binary expansion of the canonical value, over the regenerated loop header/body and FromMontgomery",
   text="Kernel-checked: Bits returns exactly 256 entries, entry i is bit i of the canonical value, and their weighted sum is the value; the loop bound and body are read from the source on every run.",
-  note=TB + "bits family (bit 255 set, powers of two, k*2^64, n-1)."),
+  note=TB + "Bits is regenerated statement by statement on every run (range-over-int loop, computed limb index, store) and proved equal to the model (bits_regenerated); bits family (bit 255 set, powers of two, k*2^64, n-1) runs the real code."),
  "C15": dict(
   technique="Lean 4 proof over a heap/slice model of vetDSTXMD (frame theorem for every heap and layout) + regenerated static write analysis + run-time backing-array comparison",
   text="Kernel-checked: in the Go-slice model of vetDSTXMD every pre-existing buffer is unchanged and the result is a new buffer, for every heap, offset, length, capacity and spare-capacity content; "
